@@ -1,7 +1,7 @@
 """Contracts of valida.conditions (evaluation side): Condition._filter, ConditionLike.filter/test/test_all,
 KeyLike/IndexLike.filter, the binary operators.  Oracle: spec/meaning.py."""
 from pyvc.contracts import contract, AnyVal, JsonVal, TupleOf, DictVal, Const, Obj, FuncVal, Bool, ListOf
-from spec.prims import same, forall_idx, is_fresh
+from spec.prims import same, forall_idx, is_fresh, is_bool
 from spec.meaning import Items, PreErr, CallErr, CallFalse, Meaning
 import valida.conditions as cnds
 import valida.data
@@ -39,7 +39,11 @@ contract(
         type(result) is valida.data.FilteredData and is_fresh(result)
         and result.condition is self and result.source is data and result.concrete_paths is None
         and len(result.result) == len(Items(self, data))
-        and forall_idx(len(result.result), lambda j: same(result.result[j], Meaning(self, Items(self, data)[j]))),
+        and len(result.pre_processor_error) == len(result.result) and len(result.callable_error) == len(result.result)
+        and len(result.callable_false) == len(result.result)
+        and forall_idx(len(result.result), lambda j: same(result.result[j], Meaning(self, Items(self, data)[j]))
+                       and is_bool(result.pre_processor_error[j]) and is_bool(result.callable_error[j])
+                       and is_bool(result.callable_false[j])),
     raises={},
     serves=["C01", "C07", "C08"],
 )
